@@ -2,13 +2,15 @@
 from propslib import comp_scope
 
 PROP = dict(
-    extract=["editor", "process_state", "sysloader"],
-    lean_targets=["Chewing.Props.C17", "Chewing.Props.C12NewCtx"],
+    extract=["editor", "process_state", "sysloader", "capi_keys", "capi_getters"],
+    lean_targets=["Chewing.Props.C17", "Chewing.Props.C12NewCtx", "Chewing.Props.C17CApi"],
     runs=[dict(bin="editor", args=["--queries"], tag="editor"),
           dict(bin="editor", args=["--c17-pairs"], tag="pairs"),
           dict(bin="capi_pure", tag="capi", timeout=900, timeout_thorough=3000),
-          dict(bin="newctx", tag="newctx", timeout=900, timeout_thorough=3000)],
-    scope=comp_scope("ed", "edq", "sysl"),
+          dict(bin="newctx", tag="newctx", timeout=900, timeout_thorough=3000),
+          dict(bin="capi_props", tag="capi_props", args=["--histories", "300", "--calls", "40"],
+               args_thorough=["--histories", "6000", "--calls", "40"])],
+    scope=comp_scope("ed", "edq", "sysl", "capiget"),
     level="proof",
     exhaustive=False,
     rule="one evaluation = one transcript record recomputed by the model from the implementation's own complete pre-state: "
@@ -24,11 +26,19 @@ PROP = dict(
          "orders, interleaved on one thread and with one thread per context (every other trace also created on those threads), every "
          "call's return value and the full observation (all getters, the four enumeration loops — the symbol-table candidate list "
          "after the backquote key / Ctrl-0/1, easy-symbol output, conversions) compared with the SAME context run ALONE in a fresh "
-         "process (stats capi.D.*: pairs with different symbols.dat / swkb.dat / dictionaries); plus the logger-slot witness",
+         "process (stats capi.D.*: pairs with different symbols.dat / swkb.dat / dictionaries); plus the logger-slot witness. "
+         "Records `capiget obs` (run capi_props, work package capiget): one evaluation = the answers of ALL modelled C getters "
+         "(35 groups: buffer / cursor / bopomofo / commit / aux Check, Len, String and String_static, the candidate counters, "
+         "string_by_index(_static) for every index and three indices beyond, the Enumerate/hasNext/String loop, list_has_next/prev, "
+         "the interval loop, CheckIgnore / CheckAbsorb, eleven legacy mode getters, zuin_Check / zuin_String + count, get_phoneSeq(Len)) of the REAL C context after one call of a generated "
+         "C-API history, recomputed by the Lean getter model (Model/CApiGetters.lean over the table regenerated from io.rs) from the "
+         "answers of the twin editor's Rust getters; #stat capi_props.getter_records, .getter_records_with_open_list",
     trusted_base=["hook H1 (Editor::verif_snapshot, TrieBuf::verif_snapshot) is read-only; layout and conversion answers are recorded "
                   "through wrapper objects installed through the public constructors",
-                  "the C layer (capi/src/io.rs) is not modelled in Lean beyond the four iterator slots and the logger slot: its purity, "
-                  "independence and reset behaviour rest on the differential executions of harness/src/bin/capi_pure.rs",
+                  "the C layer (capi/src/io.rs): the getters are modelled (work package capiget: Model/CApiGetters.lean, purity theorems "
+                  "Props/C17CApi.lean, records `capiget obs`), as are the key / candidate / buffer calls (Model/CApiOps.lean) and the four "
+                  "iterator slots and the logger slot; independence of contexts and the reset behaviour of the C layer rest on the "
+                  "differential executions of harness/src/bin/capi_pure.rs",
                   "thread schedules are not modelled; the harness runs another context freely on a second thread",
                   "process-wide state: the translator (tools/extractors/process_state.py) enumerates every static / static mut / "
                   "thread_local! / lazy_static! item of capi/src and src, classifies immutable tables vs. stateful items and fails "
@@ -91,7 +101,22 @@ MANIFEST = dict(
          "beside it; for NULL arguments the paths the environment yields and the probe of $HOME/.chewing); `write_outside_invisible`, "
          "`disjoint_creations_independent`; `process_creation_local` / `process_history_local` link it to the process model: the CreateArgs of "
          "`creation_args_local` are COMPUTED by the creation model (`createArgs`) and a process history is the same over file systems that agree "
-         "on each context's own reach. Tie: `sysl` records of run newctx + its oracle (files written outside the search path between two loads).",
+         "on each context's own reach. Tie: `sysl` records of run newctx + its oracle (files written outside the search path between two loads). "
+         "C GETTERS IN THE MODEL (round 3, work package capiget: Model/CApiGetters.lean + Props/C17CApi.lean + Gen/CApiGetters.lean): the "
+         "translator (tools/extractors/capi_getters.py, fail closed) regenerates from capi/src/io.rs one row per plain getter (Editor method "
+         "read, conversion, NULL answer) and checks the nine bodies of the enumeration protocol against the reviewed text; the model "
+         "interprets the table over the facts the getters read (GFacts.ofEditor: the Rust getters of the editor model) with the "
+         "getter-only state explicit (static buffers, cand_iter, interval_iter). Theorems: getter_table_documented, value_* (closed form "
+         "of every plain getter), get_keeps_ctx (no getter changes editor / selection keys / keyboard), getters_do_not_disturb (getter "
+         "calls of any kind interleaved anywhere in a history of modelled calls change no return value and not the final context), "
+         "insert_getter_anywhere, repeat_getter, buffer_check_iff_len, cursor_le_len_after_history (C05 through the glue), "
+         "commit_check_is_glue_getter / commit_check_iff_key_result (C02 / C06), total_page_ceil / current_page_in_range (C07), "
+         "check_done_iff / counters_zero_when_done, aux_check_iff_length, enumerate_then_loop, static_eq_heap_fits / static_prefix (C15), "
+         "null_answers, value_mode; buffer_len_is_chars_refuted (buffer_Len counts symbols, a syllable without a word is displayed "
+         "spelled out). Tie: records `capiget obs` (every call of capi_props: Lean getter model over the twin editor's Rust getters = "
+         "the real C getters; the twin editor = the Lean editor model is the `ed` correspondence). Also modelled: the deprecated "
+         "zuin_Check (= bopomofo_Check ^ 1: zuin_is_inverted_bopomofo, -2 for NULL) / zuin_String, get_phoneSeq(Len) "
+         "(phone_seq_len_le_buffer_len). Not modelled: get_KBType / KBString, get_selKey, userphrase enumeration (compared with the twin only).",
     note="Theorem: everything stated about the Lean model (the clock / flush-level unobservability under the explicit environment "
          "hypothesis MetaBlindEnv). Correspondence: model = real editor per step and per getter (hook H1). "
          "Oracle only (no model): the C layer's purity / Reset / independence, threads. Trusted: Lean kernel (propext, "
